@@ -48,6 +48,46 @@ func init() {
 			return nil
 		}
 	}
+	// sync.Pool: a last-in first-out free list per pool object (one of the behaviours the real pool
+	// may show, and the adversarial one: Get hands back exactly what the last Put stored)
+	poolItems := func(in *Interp, p Value) (string, []Value) {
+		key := fmt.Sprintf("syncpool:%p", p)
+		if v, ok := in.ghost[key]; ok {
+			return key, v.(Tuple)
+		}
+		return key, nil
+	}
+	intrinsics["(*sync.Pool).Put"] = func(in *Interp, fr *frame, args []Value) Value {
+		key, items := poolItems(in, args[0])
+		in.ghost[key] = append(Tuple{}, append(items, args[1])...)
+		return nil
+	}
+	intrinsics["(*sync.Pool).Get"] = func(in *Interp, fr *frame, args []Value) Value {
+		key, items := poolItems(in, args[0])
+		if n := len(items); n > 0 {
+			in.ghost[key] = append(Tuple{}, items[:n-1]...)
+			return items[n-1]
+		}
+		pp, ok := args[0].(*Value)
+		if !ok || pp == nil {
+			fr.fault(in.tb.False, "nil-deref")
+		}
+		st := (*pp).(Struct)
+		newFn := st[len(st)-1] // the New field is the last one
+		switch f := newFn.(type) {
+		case *ssa.Function:
+			if f == nil {
+				return Iface{}
+			}
+		case *Closure:
+			if f == nil {
+				return Iface{}
+			}
+		case nil:
+			return Iface{}
+		}
+		return in.call(fr, nil, newFn, nil)
+	}
 	intrinsics["log.Fatal"] = func(in *Interp, fr *frame, args []Value) Value {
 		in.obligation(in.tb.False, "fault:log.Fatal@"+fr.callerName(), true)
 		panic(pathEnd{"log.Fatal"})
